@@ -1559,6 +1559,13 @@ func (a *Analysis) assign(st State, lhs, rhs ast.Expr, tok token.Token) State {
 			st = a.literalFields(st, ltm, lt, x)
 		}
 	case *ast.CallExpr:
+		// error constructors never return nil
+		if fn := StaticCallee(f.Info, x); fn != nil {
+			switch fn.FullName() {
+			case "fmt.Errorf", "errors.New":
+				st = st.Assume(FNotNil(ltm))
+			}
+		}
 		if id, ok := x.Fun.(*ast.Ident); ok {
 			if b, ok := f.Info.ObjectOf(id).(*types.Builtin); ok {
 				switch b.Name() {
